@@ -13,7 +13,7 @@
   `toDense zero M nMajor nMinor` — the dense matrix the arrays stand for
   (`rowSpec`: scatter of slice `i`); `transposeDense` — its transpose.
 -/
-import CTM.Lemmas.Sparse
+import CTM.Lemmas.SparseV2
 
 namespace CTM.C13
 open CTM.Chunking CTM.Sparse
@@ -175,5 +175,147 @@ example : SlicesNodup M0 3 := by
 example : transposeOnDisk M0 3 none ⟨2, 2, 1⟩
     = .ok ⟨[0, 2, 3, 5], [0, 2, 1, 0, 2], [1, 4, 3, 2, 5]⟩ := rfl
 example : toDense 0 M0 3 3 = [[1, 0, 2], [0, 3, 0], [4, 0, 5]] := by decide
+
+/-- **`transpose_slice`** — *"for any sub-range of the minor axis"*: with
+`indices_slice = (a, b)`, `a ≤ b ≤ nMinor`, the serial transposition succeeds
+for every budget and its output denotes rows `a ..< b` of the transposed
+matrix. -/
+theorem transpose_slice {α} (zero : α) (M : Mat α) (nMajor nMinor : Nat) (B : Budget)
+    (hlo : 1 ≤ B.lo) (hc : 1 ≤ B.loCount)
+    (w : WFptr M.indptr nMajor M.indices.length) (hlen : M.data.length = M.indices.length)
+    (a b : Nat) (hab : a ≤ b) (hb : b ≤ nMinor) :
+    ∃ out, transposeOnDisk M nMinor (some (a, b)) B = .ok out ∧
+      toDense zero out (b - a) nMajor
+        = slice (transposeDense zero (toDense zero M nMajor nMinor) nMinor) a b := by
+  have hr2 : ∀ x ∈ sliceMinors (some (a, b)) M.indices, x < nMinorOf nMinor (some (a, b)) := by
+    intro x hx
+    unfold sliceMinors at hx
+    simp only [List.mem_map, List.mem_filter, Bool.and_eq_true, decide_eq_true_eq] at hx
+    obtain ⟨y, ⟨_, hy⟩, rfl⟩ := hx
+    simp only [nMinorOf]; omega
+  exact ⟨_, transposeOnDisk_eq M nMinor (some (a, b)) B hlo hc hlen hr2,
+    transposeSlice_toDense zero M nMajor nMinor w a b hab hb⟩
+
+example : transposeOnDisk M0 3 (some (1, 3)) ⟨2, 2, 1⟩
+    = .ok ⟨[0, 1, 3], [1, 0, 2], [3, 2, 5]⟩ := rfl
+
+/-- **`v2_eq`** — *"serially or with parallel workers"*: for every worker
+count `≥ 1` (also more workers than minor indices) and every pair of budgets,
+cutting the minor range into `ceil(indices_max / n_processors)`-wide
+sub-ranges, transposing each on its own and joining the pieces in range order
+with shifted pointers produces exactly the arrays of the serial transposition
+(hence everything `transpose_correct` says holds for the parallel version). -/
+theorem v2_eq {α} (M : Mat α) (indicesMax nProc : Nat) (B B' : Budget)
+    (himax : 1 ≤ indicesMax) (hp : 1 ≤ nProc)
+    (hlo : 1 ≤ B.lo) (hc : 1 ≤ B.loCount) (hlo' : 1 ≤ B'.lo) (hc' : 1 ≤ B'.loCount)
+    (hlen : M.data.length = M.indices.length) (hr : ∀ x ∈ M.indices, x < indicesMax) :
+    transposeV2 M indicesMax nProc B = transposeOnDisk M indicesMax none B' :=
+  transposeV2_eq M indicesMax nProc B B' himax hp hlo hc hlo' hc' hlen hr
+
+example : transposeV2 M0 3 2 ⟨1, 1, 1⟩ = transposeOnDisk M0 3 none ⟨5, 5, 5⟩ := rfl
+example : chunks 3 (ceilDiv 3 2) = [(0, 2), (2, 3)] := by decide
+
+/-- the sub-ranges handed to the workers partition `[0, indices_max)` in
+order, for every worker count `≥ 1`. -/
+theorem v2_slices_partition (indicesMax nProc : Nat) (himax : 1 ≤ indicesMax) (hp : 1 ≤ nProc) :
+    (chunks indicesMax (ceilDiv indicesMax nProc)).flatMap rangeOf = List.range indicesMax := by
+  unfold chunks
+  rw [chunksAux_cover indicesMax _ (ceilDiv_pos indicesMax nProc himax hp) indicesMax 0
+    (by omega) (by omega), List.range_eq_range']
+  rfl
+
+/-! ## the file-level operations equal the in-memory operation -/
+
+/-- **CSR → CSC pivot** (`pivot_csr_h5ad`): parallel transposition of `X`
+followed by a chunked copy of the three arrays (any chunk length `delta ≥ 1`)
+gives exactly the serial transposition's arrays, i.e. (by `transpose_correct`)
+the CSC encoding of the same matrix. -/
+theorem pivot {α} (M : Mat α) (nCols nProc : Nat) (B B' : Budget) (delta : Nat)
+    (hd : 1 ≤ delta) (hcols : 1 ≤ nCols) (hp : 1 ≤ nProc)
+    (hlo : 1 ≤ B.lo) (hc : 1 ≤ B.loCount) (hlo' : 1 ≤ B'.lo) (hc' : 1 ≤ B'.loCount)
+    (hlen : M.data.length = M.indices.length) (hr : ∀ x ∈ M.indices, x < nCols) :
+    pivotCsr M nCols nProc B delta = transposeOnDisk M nCols none B' := by
+  unfold pivotCsr
+  rw [transposeV2_eq M nCols nProc B B' hcols hp hlo hc hlo' hc' hlen hr]
+  cases h : transposeOnDisk M nCols none B' with
+  | error e => rfl
+  | ok t =>
+    simp only [bind, Except.bind, pure, Except.pure]
+    rw [chunkCopy_id delta _ hd, chunkCopy_id delta _ hd, chunkCopy_id delta _ hd]
+
+example : pivotCsr M0 3 2 ⟨1, 1, 1⟩ 2 = .ok ⟨[0, 2, 3, 5], [0, 2, 1, 0, 2], [1, 4, 3, 2, 5]⟩ := rfl
+
+/-- **row shuffling** (`shuffle_csr_h5ad_rows`): for every permutation
+`order` of the rows, the written arrays denote the matrix whose row `k` is row
+`order[k]` of the input. -/
+theorem shuffle_rows {α} (zero : α) (M : Mat α) (nRows nCols : Nat)
+    (w : WFptr M.indptr nRows M.indices.length) (hlen : M.data.length = M.indices.length)
+    (order : List Nat) (hp : order.Perm (List.range nRows)) :
+    toDense zero (shuffleRows M order) nRows nCols
+      = order.map fun o => (toDense zero M nRows nCols).getD o [] :=
+  shuffleRows_toDense zero M nRows nCols w hlen order hp
+
+example : toDense 0 (shuffleRows M0 [2, 0, 1]) 3 3 = [[4, 0, 5], [1, 0, 2], [0, 3, 0]] := by decide
+
+/-- **column sub-setting** (`subset_csc_h5ad_columns`): for every list of
+chosen columns (any order, repeats allowed) the written CSC arrays denote the
+chosen columns of the input in increasing order (`isort`), column by column
+(`rowSpec` of a CSC matrix is one column). -/
+theorem subset_columns {α} (zero : α) (M : Mat α) (nCols nRows : Nat)
+    (w : WFptr M.indptr nCols M.indices.length) (hlen : M.data.length = M.indices.length)
+    (chosen : List Nat) (hc : ∀ c ∈ chosen, c < nCols) :
+    toDense zero (subsetColumns M chosen) chosen.length nRows
+      = (isort (fun a b => decide (a ≤ b)) chosen).map (rowSpec zero M nRows) :=
+  subsetColumns_toDense zero M nCols nRows w hlen chosen hc
+
+example : toDense 0 (subsetColumns M0 [2, 0]) 2 3 = [[1, 0, 2], [4, 0, 5]] := by decide
+
+/-- **stacking row selections** — *"pointer arithmetic when concatenating CSR
+pieces"*: for well-formed pieces `(Pₖ, nₖ)` the arrays produced by
+`merge_csr`, by `amalgamate_csr_to_x` and by the joining loop of the parallel
+transposition all denote the pieces' matrices stacked in order.  (The pieces
+`amalgamate_h5ad` stacks are `get_batch(rows, sparse=True)` results, which are
+exactly the requested rows by `C05.load_disjoint`.) -/
+theorem stack_pieces {α} (zero : α) (parts : List (Mat α × Nat)) (nCols : Nat)
+    (hwf : ∀ P ∈ parts, WFptr P.1.indptr P.2 P.1.indices.length ∧
+      P.1.data.length = P.1.indices.length) :
+    toDense zero (mergeCsr (parts.map (·.1))) ((parts.map (·.2)).sum) nCols
+        = parts.flatMap (fun P => toDense zero P.1 P.2 nCols) ∧
+    toDense zero (amalgamateCsr (parts.map (·.1))) ((parts.map (·.2)).sum) nCols
+        = parts.flatMap (fun P => toDense zero P.1 P.2 nCols) ∧
+    toDense zero (joinParts (parts.map (·.1))) ((parts.map (·.2)).sum) nCols
+        = parts.flatMap (fun P => toDense zero P.1 P.2 nCols) :=
+  ⟨concat_toDense zero mergeCsr mergeCsr_ofSegs parts nCols hwf,
+   concat_toDense zero amalgamateCsr amalgamateCsr_ofSegs parts nCols hwf,
+   concat_toDense zero joinParts joinParts_ofSegs parts nCols hwf⟩
+
+example : toDense 0 (amalgamateCsr [M0, ⟨[0, 1], [1], [7]⟩]) 4 3
+    = [[1, 0, 2], [0, 3, 0], [4, 0, 5], [0, 7, 0]] := by decide
+
+/-- **copying a layer into X / element-wise HDF5 copy in bounded hyperslabs**:
+a chunked 1-d copy with any chunk length `≥ 1` and a tiled 2-d copy over any
+grid of chunk lists (`_copy_layer_to_x_sparse`, `_copy_layer_to_x_dense`,
+`copy_h5_excluding_data`) reproduce the array. -/
+theorem chunked_copies {β} :
+    (∀ (c : Nat) (l : List β), 1 ≤ c → chunkCopy c l = l) ∧
+    (∀ (D : List (List β)) (m a b : Nat), 1 ≤ a → 1 ≤ b → (∀ row ∈ D, row.length = m) →
+      tileCopy (chunks D.length a) (chunks m b) D = D) :=
+  ⟨fun c l h => chunkCopy_id c l h, fun D m a b ha hb hr => tileCopy_id D m a b ha hb hr⟩
+
+example : tileCopy (chunks 3 2) (chunks 3 2) [[1, 0, 2], [0, 3, 0], [4, 0, 5]]
+    = [[1, 0, 2], [0, 3, 0], [4, 0, 5]] := by decide
+
+/-- the hyperslabs chosen by `_get_slices_for_copy` tile every dimension
+exactly (in order, without overlap), whatever `max_elements` — also 0 — and
+whatever the shape. -/
+theorem copy_slices_tile (perDim : Nat) (shape : List Nat) :
+    (copySlices perDim shape).map (·.flatMap rangeOf) = shape.map List.range := by
+  unfold copySlices
+  rw [List.map_map]
+  apply List.map_congr_left
+  intro n _
+  exact copySlices1_cover perDim n
+
+example : copySlices 2 [5, 3] = [[(0, 2), (2, 4), (4, 5)], [(0, 2), (2, 3)]] := by decide
 
 end CTM.C13
